@@ -295,6 +295,11 @@ def run(ctx):
             if fails:
                 # an output whose declarations clash cannot be read reliably by the facts extractor
                 explained = fams & (set(spec["known"]) | {"method_name_clash", "mock_name_twice"})
+                # a failure that is nothing but a go/types diagnostic, on an input of a listed family that
+                # keeps the output from compiling, is that finding (whichever property's oracle meets it)
+                terrs = set(e[:200] for e in (cr["facts"].get("type_errors") or []))
+                if not explained and all(sym in terrs for _, sym in fails):
+                    explained = fams & set(ALL_FAMILIES)
                 if explained and (explained & listed_families):
                     for fam in explained & listed_families:
                         known_hits.setdefault(fam, []).append(cr["case"]["id"])
@@ -326,11 +331,14 @@ def run(ctx):
         if ctx.pid == "C07":
             # the zero-value block of -stub must compile: go/types diagnostics located in it
             for cr in cases:
-                sites = [x for x in ((cr.get("facts") or {}).get("error_sites") or []) if x.startswith("stub_block:")]
-                if sites and not (set(cr["families"]) & listed_families):
+                fx = cr.get("facts") or {}
+                pairs = list(zip(fx.get("error_sites") or [], fx.get("type_errors") or []))
+                elsewhere = set(e for s, e in pairs if not s.startswith("stub_block:"))
+                # a diagnostic of the zero-value block that the rest of the file does not have as well
+                own = [(s, e) for s, e in pairs if s.startswith("stub_block:") and e not in elsewhere]
+                if own and not (set(cr["families"]) & listed_families):
                     failures.append(dict(case=cr, fails=[("with -stub the zero-value branch of %s does not compile"
-                                                          % sites[0].split(":", 1)[1],
-                                                          ((cr["facts"].get("type_errors") or ["?"])[0])[:200])],
+                                                          % own[0][0].split(":", 1)[1], own[0][1][:200])],
                                          families=sorted(cr["families"])))
         # runtime: real compiled mocks under histories / race detector, against MockSem
         rt = stage_mock.run(ctx.tools, ctx.seed, ctx.tier)
@@ -373,6 +381,20 @@ def run(ctx):
                      (len(rt["histories"]), agree, stuck, len(rt["packages"])))
         evaluated += len(rt["histories"])
 
+    if ctx.pid in ("C02", "C10"):
+        # -pkg equal to the source package's name while -out points into a different package of that name
+        cs = stage_cli.run(ctx.tools, ctx.seed, ctx.tier)
+        for o in cs["obs"]:
+            if o.get("dest_build") is False:
+                failures.append(dict(case=dict(case=dict(id=o["name"], args=o["args"], pkg="store", stub=False,
+                                                         skip="-skip-ensure" in o["flags"], resets=False,
+                                                         flags=o["flags"], out=o["out"]),
+                                               text=o.get("out_after"), facts={}, src={}),
+                                     fails=[("generated into another package that has the source package's name, the mock "
+                                             "does not compile there or does not implement the interface",
+                                             (o.get("dest_build_err") or "")[-300:])], families=[]))
+            if o.get("dest_build") is not None:
+                evaluated += 1
     if ctx.pid in ("C08", "C16"):
         # flag -> Config plumbing in main.go: the CLI must produce what the library produces for the
         # configuration the flags are documented to select
@@ -394,7 +416,7 @@ def cli_oracle(pid, o, groups):
     """C15 / C17 / C18 read off one observed CLI run (property text, not the model)"""
     fails = []
     out = o["out"]
-    outkey = ("store/" + out) if out else None
+    outkey = os.path.normpath("store/" + out) if out else None
     go_on_stdout = ("package " in o["stdout"]) or ("Code generated" in o["stdout"])
     if pid == "C18":
         for k, (a, b) in sorted(o["changed"].items()):
